@@ -8,6 +8,7 @@ import (
 	"sync"
 	"time"
 
+	"github.com/golang/protobuf/proto"
 	"github.com/xuperchain/xupercore/bcs/ledger/xledger/state"
 	txn "github.com/xuperchain/xupercore/bcs/ledger/xledger/tx"
 	pb "github.com/xuperchain/xupercore/bcs/ledger/xledger/xldgpb"
@@ -207,6 +208,7 @@ type blkFacts struct {
 	Flags  string // which content is in effect: subset of "e" "n" "p" (sorted), "x": none of them
 	Pooled string // "-" no pool wanted | "in" the pooled transaction was admitted by Chain.SubmitTx | "refused"
 	Same   bool   // the entry claims the id of the pooled transaction
+	SameC  bool   // the entry is the pooled transaction: the protobufs are equal up to block id and reception time
 	Stage  string // where a refusal happened: confirm | apply | tip
 	Why    string
 }
@@ -232,6 +234,12 @@ func (w *world) blockOp(entry, pooled *pb.Transaction, via string, st *stats) (o
 	out.Pooled = "-"
 	if pooled != nil {
 		out.Same = bytes.Equal(entry.Txid, pooled.Txid)
+		if wp, werr := wire(pooled); werr == nil {
+			x, y := proto.Clone(entry).(*pb.Transaction), wp
+			x.Blockid, y.Blockid = nil, nil
+			x.ReceivedTimestamp, y.ReceivedTimestamp = 0, 0
+			out.SameC = proto.Equal(x, y)
+		}
 		if res, why := submitClass(n, pooled, st); res != "ok" {
 			out.Pooled, out.Res, out.Flags, out.Why = "refused", "-", "n", why
 			return out, nil
@@ -256,6 +264,14 @@ func (w *world) blockOp(entry, pooled *pb.Transaction, via string, st *stats) (o
 		return out, fmt.Errorf("FormatMinerBlock: %v", err)
 	}
 	out.Res = "ok"
+	if via == "play" && verifyPanics(n, entry) {
+		// PlayAndRepost verifies in goroutines of its own (verifyBlockTxs): a panic there cannot be recovered from
+		// here and would end the driver. A verifier that panics counts as a refusal (as for State.VerifyTx).
+		st.Panics++
+		out.Res, out.Stage, out.Why = "rej", "panic", "State.VerifyTx panics on the entry"
+		out.Flags = flagsOf(before, takeSnapshot(n, addrs, keys), effE, effP, pooled != nil)
+		return out, nil
+	}
 	if cs := l.ConfirmBlock(blk, false); !cs.Succ {
 		out.Res, out.Stage, out.Why = "rej", "confirm", fmt.Sprint(cs.Error)
 	} else {
@@ -276,6 +292,17 @@ func (w *world) blockOp(entry, pooled *pb.Transaction, via string, st *stats) (o
 	}
 	out.Flags = flagsOf(before, takeSnapshot(n, addrs, keys), effE, effP, pooled != nil)
 	return out, nil
+}
+
+// verifyPanics: State.VerifyTx on a copy of tx panics (read-only on the node).
+func verifyPanics(n *fx.Node, tx *pb.Transaction) (panicked bool) {
+	defer func() {
+		if r := recover(); r != nil {
+			panicked = true
+		}
+	}()
+	n.State.VerifyTx(proto.Clone(tx).(*pb.Transaction))
+	return false
 }
 
 func flagsOf(before, after *snapshot, effE, effP *effects, pool bool) string {
